@@ -38,6 +38,16 @@ Definition rat_try_to_ibig (N D : Z) : conv Z :=
   if D =? 1 then COk N else CLossOfPrecision.
 Definition int_to_rat (v : Z) : Z * Z := (v, 1).
 
+(** rational/src/repr.rs Repr::reduce, and rational/src/third_party/dashu_float.rs
+    TryFrom<FBigRepr<B>> / TryFrom<FBig<R,B>> for RBig *)
+Definition conv_rat_reduce (N D : Z) : Z * Z :=
+  if N =? 0 then (0, 1) else let g := Z.gcd N D in (N / g, D / g).
+Definition fbig_try_to_rbig (B : Z) (inf : bool) (s e : Z) : conv (Z * Z) :=
+  if inf then COutOfBounds
+  else
+    let '(n, d) := if 0 <=? e then (s * B ^ e, 1) else (s, B ^ (- e)) in
+    COk (conv_rat_reduce n d).
+
 (** TryFrom<Repr<B>> / TryFrom<FBig<R,B>> for the primitive integers.  The f32 lower bound of
     log2|value| (EstimatedLog2::log2_bounds) enters only through the test [log2_lb >= BITS]; the
     model takes the integer part [lb] of that estimate as a parameter (zero has the estimate
@@ -411,3 +421,46 @@ Proof.
   intros He. apply fbig_try_to_prim_correct; [lia | apply lb_exact_sound; lia | | exact He].
   unfold widths_ok. cbn. lia.
 Qed.
+
+(** ---- FBig<R,B> / Repr<B> -> RBig (rational/src/third_party/dashu_float.rs) ---- *)
+
+Lemma conv_rat_reduce_spec N D : 0 < D ->
+  let '(n, d) := conv_rat_reduce N D in 0 < d /\ Z.gcd n d = 1 /\ n * D = N * d.
+Proof.
+  intros HD. unfold conv_rat_reduce. destruct (Z.eqb_spec N 0) as [->|HN].
+  - repeat split; lia.
+  - cbv zeta. set (g := Z.gcd N D).
+    assert (Hg : 0 < g).
+    { pose proof (Z.gcd_nonneg N D) as Hnn. fold g in Hnn.
+      destruct (Z.eq_dec g 0) as [E|E]; [|lia]. apply Z.gcd_eq_0_r in E. lia. }
+    assert (EN : N = g * (N / g)).
+    { apply Z_div_exact_full_2; [lia|]. apply Z.mod_divide; [lia | apply Z.gcd_divide_l]. }
+    assert (ED : D = g * (D / g)).
+    { apply Z_div_exact_full_2; [lia|]. apply Z.mod_divide; [lia | apply Z.gcd_divide_r]. }
+    split; [|split].
+    + clear - Hg HD ED. nia.
+    + apply Z.gcd_div_gcd; [lia | reflexivity].
+    + rewrite ED at 1. rewrite EN at 2. ring.
+Qed.
+
+(** every finite float converts, to the reduced fraction of the same value *)
+Theorem fbig_try_to_rbig_correct B s e : 2 <= B ->
+  exists n d, fbig_try_to_rbig B false s e = COk (n, d) /\ 0 < d /\ Z.gcd n d = 1 /\
+              n * snd (repr_frac B s e) = fst (repr_frac B s e) * d.
+Proof.
+  intros HB. unfold fbig_try_to_rbig, repr_frac.
+  destruct (Z.leb_spec 0 e) as [He|He]; cbn [fst snd].
+  - pose proof (conv_rat_reduce_spec (s * B ^ e) 1 ltac:(lia)) as H.
+    destruct (conv_rat_reduce (s * B ^ e) 1) as [n d]. exists n, d. split; [reflexivity | exact H].
+  - pose proof (Z.pow_pos_nonneg B (- e) ltac:(lia) ltac:(lia)) as Hp.
+    pose proof (conv_rat_reduce_spec s (B ^ (- e)) Hp) as H.
+    destruct (conv_rat_reduce s (B ^ (- e))) as [n d]. exists n, d. split; [reflexivity | exact H].
+Qed.
+
+Theorem fbig_try_to_rbig_infinite B s e : fbig_try_to_rbig B true s e = COutOfBounds.
+Proof. reflexivity. Qed.
+
+Example fbig_try_to_rbig_examples :
+  fbig_try_to_rbig 10 false 125 (-2) = COk (5, 4) /\ fbig_try_to_rbig 10 false (-12) 2 = COk (-1200, 1) /\
+  fbig_try_to_rbig 2 false 0 0 = COk (0, 1) /\ fbig_try_to_rbig 10 false (-15) (-1) = COk (-3, 2).
+Proof. repeat split. Qed.
